@@ -59,7 +59,7 @@ FIRING = [
     ("store-reset-misses-positions", "jesse/store/__init__.py", "        self.positions = PositionsState()\n        self.tickers", "        self.tickers", ["C11"]),
     ("fast-time-not-set", BT, "                            store.app.time = storable_temp_candle[0] + 60_000\n                            order.execute()",
      "                            order.execute()", ["C12"]),
-    ("step-min", BT, "return np.gcd.reduce(consider_time_frames)", "return min(consider_time_frames)", ["C12"]),
+    ("step-min", BT, "return np.gcd.reduce(consider_time_frames + [1440])", "return min(consider_time_frames)", ["C12"]),
     ("ema-wraparound", "jesse/indicators/ema.py", "    for i in range(period, n):\n        current = alpha * source[i] + (1 - alpha) * prev",
      "    for i in range(period, n):\n        current = alpha * source[i - period - 1] + (1 - alpha) * prev", ["C13"]),
     ("sma-centered", "jesse/indicators/sma.py", "res[period-1:] = np.convolve(source, np.ones(period, dtype=float)/period, mode='valid')",
@@ -89,7 +89,7 @@ FIRING = [
      "        if dif == 0 or (jh.is_live() and long_count != 0 and",
      "        if dif == 0 or (long_count != 0 and", ["C07"]),
     ("fast-tail-full-step", BT, "        step = min(candles_step, length - i)\n", "        step = candles_step\n", ["C07", "C12"]),
-    ("chunk-step-max", BT, "    return np.gcd.reduce(consider_time_frames)", "    return max(consider_time_frames)", ["C07", "C12"]),
+    ("chunk-step-max", BT, "    return np.gcd.reduce(consider_time_frames + [1440])", "    return max(consider_time_frames)", ["C07", "C12"]),
     ("cci-constant", "jesse/indicators/cci.py", "(0.015 * md)", "(0.15 * md)", ["C15"]),
     ("stochf-range", "jesse/indicators/stochf.py", "k = 100 * (candles_close - ll) / (hh - ll)", "k = 100 * (candles_close - ll) / (hh - candles_close)", ["C15"]),
     ("keltner-lower-band", "jesse/indicators/keltner.py", "low = ma_values - atr_vals * multiplier", "low = ma_values - atr_vals", ["C15"]),
@@ -155,6 +155,7 @@ FIRING = [
     ("tsf-period-one", "jesse/indicators/tsf.py", "        if len(source) < period or period < 2:\n", "        if len(source) < period:\n", ["C14"]),
     ("add-multiple-inner-chunk-refused", "jesse/store/state_candles.py", "        elif candles[0, 0] >= arr[0][0] and candles[-1, 0] < arr[-1][0]:\n", "        elif False and candles[0, 0] >= arr[0][0] and candles[-1, 0] < arr[-1][0]:\n", ["C20"]),
     ("research-candles-in-caller-order", "jesse/research/backtest.py", "    trading_candles_dict = {k: copied_candles[k] for k in ordered_keys}\n", "    trading_candles_dict = {k: v for k, v in copied_candles.items()}\n", ["C11"]),
+    ("fast-chunk-longer-than-a-day", BT, "    return np.gcd.reduce(consider_time_frames + [1440])\n", "    return np.gcd.reduce(consider_time_frames)\n", ["C16", "C12", "C07"]),
     ("dna-append-multiple-empty", "jesse/libs/dynamic_numpy_array/__init__.py", "        if len(items) == 0:\n            return\n", "", ["C18"]),
     ("dna-delete-raw-index", "jesse/libs/dynamic_numpy_array/__init__.py", "        if index < 0:\n            index = (self.index + 1) - abs(index)\n        if index > self.index or index < 0:\n            raise IndexError('list assignment index out of range')\n\n        self.array = np.delete", "        self.array = np.delete", ["C18"]),
 ]
@@ -189,8 +190,8 @@ SILENT = [
     # ---- round-2 additions
     ("fast-tail-explicit-if", BT, "        step = min(candles_step, length - i)\n",
      "        step = candles_step\n        if i + step > length:\n            step = length - i\n", ["C07", "C12", "C01"]),
-    ("chunk-step-math-gcd", BT, "    return np.gcd.reduce(consider_time_frames)",
-     "    import math\n    g = 0\n    for m in consider_time_frames:\n        g = math.gcd(g, m)\n    return g", ["C01", "C07", "C12"]),
+    ("chunk-step-math-gcd", BT, "    return np.gcd.reduce(consider_time_frames + [1440])",
+     "    import math\n    g = 1440\n    for m in consider_time_frames:\n        g = math.gcd(g, m)\n    return g", ["C01", "C07", "C12"]),
     ("cci-constant-rewritten", "jesse/indicators/cci.py", "(0.015 * md)", "(md * 0.015)", ["C15"]),
     # ---- defect-hunting round
     ("fee-filled-qty-rewritten", "jesse/models/Position.py", "                    elif abs(qty) > abs(self.qty):\n                        filled_qty = -self.qty",
